@@ -100,6 +100,40 @@ fn describe_status(st: &std::process::ExitStatus) -> String {
     }
 }
 
+/// what the dead / hung child is known to have covered (progress markers of all attempts), folded into a report that
+/// was assembled without a complete checkpoint
+fn fold_progress(rep: &mut Value, base: &std::path::Path) {
+    let (mut ev, mut dn) = (0u64, 0u64);
+    if let Ok(rd) = std::fs::read_dir(base) {
+        for e in rd.flatten() {
+            if let Ok(t) = std::fs::read_to_string(e.path().join("progress.json")) {
+                if let Ok(v) = serde_json::from_str::<Value>(&t) {
+                    ev = ev.max(v["evaluations"].as_u64().unwrap_or(0));
+                    dn = dn.max(v["distinct_nontrivial"].as_u64().unwrap_or(0));
+                }
+            }
+        }
+    }
+    // the cases that were being executed when an attempt ended were attempted too
+    let mut inflight: HashSet<String> = HashSet::new();
+    if let Ok(rd) = std::fs::read_dir(base) {
+        for e in rd.flatten() {
+            if e.path().is_dir() {
+                for l in read_journal(&e.path()) {
+                    inflight.insert(l);
+                }
+            }
+        }
+    }
+    ev = ev.max(inflight.len() as u64);
+    dn = dn.max(inflight.len() as u64);
+    if rep["coverage"]["evaluations"].as_u64().unwrap_or(0) < ev {
+        rep["coverage"]["evaluations"] = json!(ev);
+        rep["coverage"]["distinct_nontrivial"] = json!(dn.max(rep["coverage"]["distinct_nontrivial"].as_u64().unwrap_or(0)));
+        rep["coverage"]["progress_note"] = json!("counts taken from the last progress marker of the exploring process (it died or hung before the section's checkpoint)");
+    }
+}
+
 /// CPU time (user + system, clock ticks) of a process (all its threads), from /proc
 fn cpu_ticks(pid: u32) -> Option<u64> {
     let txt = std::fs::read_to_string(format!("/proc/{}/stat", pid)).ok()?;
@@ -111,8 +145,9 @@ fn cpu_ticks(pid: u32) -> Option<u64> {
 /// Run a child to completion, but kill it when it has stopped making progress: no CPU time consumed for STALL_S
 /// seconds means it sits in a deadlock (a corrupted heap taking the allocator lock with it, a lost wake-up, ...).
 /// -> (exit status description, success); a stalled child is reported as "hang".
-fn run_watched(cmd: &mut Command) -> (String, bool) {
-    const STALL_S: u64 = 25;
+fn run_watched(cmd: &mut Command, stall_s: u64) -> (String, bool) {
+    #[allow(non_snake_case)]
+    let STALL_S: u64 = stall_s;
     let mut child = cmd.spawn().expect("spawn child");
     let pid = child.id();
     let mut last = cpu_ticks(pid).unwrap_or(0);
@@ -153,6 +188,12 @@ pub fn run_main(def: CheckDef) -> ! {
         let s = def.sections.iter().find(|s| s.name == sec).expect("section");
         let out = (s.replay)(&v["case"]);
         println!("single: violation={:?}", out.violation);
+        // exit 3 + a side file: the case does not kill a fresh process, but it IS a violation on its own (the process that
+        // explored it died later, e.g. of the heap damage it did)
+        if let Some((sig, desc)) = &out.violation {
+            let _ = std::fs::write(format!("{}.out", f), json!({"signature": sig, "desc": desc}).to_string());
+            std::process::exit(3);
+        }
         std::process::exit(0);
     }
 
@@ -241,8 +282,10 @@ pub fn run_main(def: CheckDef) -> ! {
     let mut skip_recs: Vec<Value> = Vec::new();
     let mut code = 2;
     let max_attempts = 4;
+    // a reproducible hang ends the exploration at once (every further attempt would only wait for the next stall)
+    let mut hang_found = false;
     for attempt in 0..=max_attempts {
-        if attempt == max_attempts {
+        if attempt == max_attempts || hang_found {
             // still dying: stop exploring, report what is established (crash violations + the last checkpoint)
             let mut rep: Value = std::fs::read_to_string(format!("{}.partial", out_path))
                 .ok()
@@ -254,7 +297,7 @@ pub fn run_main(def: CheckDef) -> ! {
                            "violation_records": []})
                 });
             rep["coverage"]["exhaustive"] = json!(false);
-            rep["coverage"]["aborted"] = json!(format!("exploration stopped after {} crashing attempts; coverage is that of the last completed section checkpoint", max_attempts));
+            rep["coverage"]["aborted"] = json!(if hang_found { "exploration stopped at a reproducible hang; coverage is that of the last completed section checkpoint".to_string() } else { format!("exploration stopped after {} crashing attempts; coverage is that of the last completed section checkpoint", max_attempts) });
             let have: HashSet<String> = rep["violation_records"].as_array().map(|a| a.iter().map(|v| v["case"].to_string()).collect()).unwrap_or_default();
             for e in &skip_recs {
                 let line: Value = serde_json::from_str(e["line"].as_str().unwrap_or("{}")).unwrap_or(Value::Null);
@@ -269,6 +312,7 @@ pub fn run_main(def: CheckDef) -> ! {
                 let known_hit = known.contains(&sig);
                 rep["violation_records"].as_array_mut().unwrap().push(json!({"section": line["section"], "signature": sig, "desc": e["desc"], "case": line["case"], "count": 1, "known": known_hit}));
             }
+            fold_progress(&mut rep, &base);
             std::fs::write(&out_path, serde_json::to_string_pretty(&rep).unwrap()).expect("write report");
             code = 0;
             break;
@@ -280,7 +324,7 @@ pub fn run_main(def: CheckDef) -> ! {
         let _ = std::fs::remove_file(format!("{}.partial", out_path));
         let mut cmd = Command::new(&exe);
         cmd.args(&args[1..]).arg("--child").arg("--journal-dir").arg(&jd).arg("--skip-file").arg(&skip_file).arg("--out").arg(&out_path);
-        let (st_desc, st_ok) = run_watched(&mut cmd);
+        let (st_desc, st_ok) = run_watched(&mut cmd, 25);
         if st_ok && std::path::Path::new(&out_path).exists() {
             code = 0;
             break;
@@ -293,8 +337,17 @@ pub fn run_main(def: CheckDef) -> ! {
             std::fs::write(&f, line).unwrap();
             let mut sts = Vec::new();
             for _ in 0..2 {
-                let (d, _) = run_watched(Command::new(&exe).arg("--single").arg(&f).stdout(std::process::Stdio::null()).stderr(std::process::Stdio::null()));
+                let (d, _) = run_watched(Command::new(&exe).arg("--single").arg(&f).stdout(std::process::Stdio::null()).stderr(std::process::Stdio::null()), 8);
                 sts.push(d);
+            }
+            if sts[0] == sts[1] && sts[0] == "exit3" {
+                // reproducible violation (not a crash) of a case that was in flight when the explorer died
+                let o: Value = std::fs::read_to_string(format!("{}.out", f.display())).ok().and_then(|t| serde_json::from_str(&t).ok()).unwrap_or(Value::Null);
+                let sig = o["signature"].as_str().unwrap_or("violation").to_string();
+                eprintln!("[driver] in-flight case is a violation on its own: {} on {}", sig, line);
+                skip_recs.push(json!({"line": line, "signature": sig, "desc": format!("{} (the exploring process died while or after executing this case)", o["desc"].as_str().unwrap_or(""))}));
+                found = true;
+                continue;
             }
             if sts[0] == sts[1] && sts[0] != "exit0" {
                 let v: Value = serde_json::from_str(line).unwrap_or(Value::Null);
@@ -302,11 +355,40 @@ pub fn run_main(def: CheckDef) -> ! {
                 eprintln!("[driver] reproducible crash {} on {}", sig, line);
                 skip_recs.push(json!({"line": line, "signature": sig, "desc": format!("process died ({}) while executing this case, twice in fresh processes", sts[0])}));
                 found = true;
+                if sts[0] == "hang" {
+                    hang_found = true;
+                    break;
+                }
             }
         }
         if !found {
-            eprintln!("[driver] child death ({}) not attributable to a reproducible case: machinery failure", st_desc);
-            code = 2;
+            // no case kills a fresh process on its own. If the child had already established violations before it died,
+            // those stand (the violating case very likely damaged the process); otherwise this is a machinery failure.
+            let early: Vec<Value> = std::fs::read_to_string(jd.join("violations.jsonl"))
+                .map(|t| t.lines().filter_map(|l| serde_json::from_str::<Value>(l).ok()).collect())
+                .unwrap_or_default();
+            if early.is_empty() {
+                eprintln!("[driver] child death ({}) not attributable to a reproducible case: machinery failure", st_desc);
+                code = 2;
+                break;
+            }
+            eprintln!("[driver] child death ({}) after {} established violation(s): reporting those", st_desc, early.len());
+            let mut rep: Value = std::fs::read_to_string(format!("{}.partial", out_path)).ok().and_then(|t| serde_json::from_str(&t).ok()).unwrap_or_else(|| {
+                json!({"property_id": def.property, "tier": tier.name(), "seed": seed, "level": def.level, "wall_s": 0.0, "assumptions": def.assumptions,
+                       "coverage": {"evaluations": early.len(), "distinct_nontrivial": early.len(), "rule": "violations established before the process died", "samples": [], "exhaustive": false, "sections": []},
+                       "violation_records": []})
+            });
+            rep["coverage"]["exhaustive"] = json!(false);
+            rep["coverage"]["aborted"] = json!(format!("the exploring process died ({}) after these violations were established; coverage is that of the last completed section checkpoint", st_desc));
+            for e in early {
+                let dup = rep["violation_records"].as_array().unwrap().iter().any(|v| v["signature"] == e["signature"] && v["section"] == e["section"]);
+                if !dup {
+                    rep["violation_records"].as_array_mut().unwrap().push(json!({"section": e["section"], "signature": e["signature"], "desc": e["desc"], "case": e["case"], "count": 1, "known": e["known"]}));
+                }
+            }
+            fold_progress(&mut rep, &base);
+            std::fs::write(&out_path, serde_json::to_string_pretty(&rep).unwrap()).expect("write report");
+            code = 0;
             break;
         }
     }
